@@ -116,4 +116,210 @@ Section Steps.
         rewrite po_next, po_frontier, po_emit_end. apply Ihand; auto.
     Qed.
   End PcOnly.
+
+  (* ---------- a worker exits (end of stream, or in sync with its next) ---------- *)
+
+  Section Exit.
+    Variables (s : pstate) (i : nat) (eof : bool).
+    Hypothesis I : PInv s.
+    Hypothesis Hi : i < nw.
+    Hypothesis Hact : w_active (getw s i) = true.
+    Let w' := exit_w (getw s i) eof.
+    Let s' := setw s i w'.
+    Hypothesis Heof : eof = true -> emit_end s i = length data.
+    Hypothesis Hhand : eof = false -> w_next (getw s i) < nw /\ frontier s (w_next (getw s i)) = emit_end s i.
+
+    Lemma ex_getw j : getw s' j = if i =? j then w' else getw s j.
+    Proof. unfold s'. apply getw_setw. rewrite (p_n _ _ _ _ _ _ s I). exact Hi. Qed.
+    Lemma ex_field {A} (f : wstate -> A) j : (f w' = f (getw s i)) -> f (getw s' j) = f (getw s j).
+    Proof. intros E. rewrite ex_getw. destruct (Nat.eqb_spec i j); [subst; exact E|reflexivity]. Qed.
+    Lemma ex_emit j : w_emit (getw s' j) = w_emit (getw s j). Proof. apply ex_field. reflexivity. Qed.
+    Lemma ex_cons j : w_cons (getw s' j) = w_cons (getw s j). Proof. apply ex_field. reflexivity. Qed.
+    Lemma ex_sync j : w_sync (getw s' j) = w_sync (getw s j). Proof. apply ex_field. reflexivity. Qed.
+    Lemma ex_next j : w_next (getw s' j) = w_next (getw s j). Proof. apply ex_field. reflexivity. Qed.
+    Lemma ex_pos j : w_pos (getw s' j) = w_pos (getw s j). Proof. apply ex_field. reflexivity. Qed.
+    Lemma ex_other {A} (f : wstate -> A) j : j <> i -> f (getw s' j) = f (getw s j).
+    Proof. intros Hne. rewrite ex_getw. destruct (Nat.eqb_spec i j); [congruence|reflexivity]. Qed.
+    Lemma ex_self : getw s' i = w'. Proof. rewrite ex_getw, Nat.eqb_refl. reflexivity. Qed.
+    Lemma ex_emit_end j : emit_end s' j = emit_end s j.
+    Proof. unfold PChunkerInv.emit_end. now rewrite ex_emit. Qed.
+    Lemma ex_frontier j : frontier s' j = frontier s j.
+    Proof. unfold PChunkerInv.frontier. now rewrite ex_emit, ex_cons. Qed.
+    Lemma ex_onchain j : onchain s' j <-> onchain s j.
+    Proof. unfold onchain. split; intros Ho x Hx; specialize (Ho x Hx); now rewrite ex_next in *. Qed.
+    Lemma ex_active_mono j : w_active (getw s' j) = true -> w_active (getw s j) = true.
+    Proof. destruct (Nat.eq_dec j i) as [->|Hne]; [rewrite ex_self; cbn; discriminate|now rewrite (ex_other w_active j Hne)]. Qed.
+
+    Lemma exit_inv : PInv s'.
+    Proof.
+      pose proof (active_ge_kcur min max d data nw span s i I Hi Hact) as Hki.
+      destruct I as [In Ich Ica Ipo Ico Ine Iac Ieo Ipc Isy Ia Ib Ic Isl Ikb Iout Icol Idone Ihand].
+      constructor.
+      - unfold s'. rewrite nworkers_setw. exact In.
+      - intros j Hj. rewrite ex_emit. auto.
+      - intros j Hj. rewrite ex_emit. auto.
+      - intros j Hj. rewrite ex_pos, ex_emit_end. auto.
+      - intros j Hj. rewrite ex_cons, ex_emit. auto.
+      - intros j Hj. rewrite ex_next. auto.
+      - intros j Hj. destruct (Nat.eq_dec j i) as [->|Hne]; [rewrite ex_self; reflexivity|].
+        rewrite (ex_other w_active j Hne), (ex_other w_pc j Hne). auto.
+      - intros j Hj He. rewrite ex_emit_end. destruct (Nat.eq_dec j i) as [->|Hne].
+        + rewrite ex_self in *. cbn in *. split; [reflexivity|]. apply Heof. exact He.
+        + rewrite (ex_other w_eof j Hne) in He. rewrite (ex_other w_active j Hne). auto.
+      - intros j Hj. destruct (Nat.eq_dec j i) as [->|Hne].
+        + unfold PChunkerInv.pcl. rewrite ex_self. cbn. exact Logic.I.
+        + specialize (Ipc j Hj). unfold PChunkerInv.pcl in *. rewrite (ex_other w_pc j Hne), ex_next, ex_emit_end. exact Ipc.
+      - intros j Hj Hk. unfold sync_ok. rewrite ex_sync, ex_cons, ex_emit. apply Isy; auto.
+      - intros a a' Hlt Ha' Hac. unfold act in Hac. apply ex_active_mono in Hac. rewrite ex_next. apply Ia; auto.
+      - intros a j Haj Hjn Hj. rewrite ex_next in Hjn. rewrite ex_cons, ex_emit.
+        destruct (Ib a j Haj Hjn Hj) as [B1 B2]. split; [|exact B2].
+        destruct (Nat.eq_dec j i) as [->|Hne]; [rewrite ex_self; reflexivity|now rewrite (ex_other w_active j Hne)].
+      - intros a x Hax Hxn Hx. rewrite !ex_next in *. apply Ic; auto.
+      - intros a Ha. destruct (Nat.eq_dec a i) as [->|Hne].
+        + unfold PChunkerInv.sl. rewrite ex_self. cbn. exact Logic.I.
+        + specialize (Isl a Ha). unfold PChunkerInv.sl in *. rewrite (ex_other w_pc a Hne), ex_next, ex_cons, ex_emit, ex_sync. exact Isl.
+      - intros j Hjk Hj. cbn in Hjk. rewrite ex_cons, ex_emit. destruct (Ikb j Hjk Hj) as [B1 B2]. split; [|exact B2].
+        destruct (Nat.eq_dec j i) as [->|Hne]; [rewrite ex_self; reflexivity|now rewrite (ex_other w_active j Hne)].
+      - exact Iout.
+      - intros Hd. destruct (Icol Hd) as [Hk [HA|HB]]; (split; [exact Hk|]).
+        + left. unfold PChunkerInv.stateA in *. cbn [p_c s' setw] in *. rewrite ex_onchain, ex_frontier. exact HA.
+        + right. unfold PChunkerInv.stateB in *. cbn [p_c s' setw] in *.
+          destruct HB as (a & Ha & Ho & Hn & Hn' & Hf). exists a.
+          rewrite ex_onchain, ex_next, ex_frontier. tauto.
+      - exact Idone.
+      - intros a Ha Hk Hac He Ho. rewrite ex_onchain in Ho. rewrite ex_next, ex_frontier, ex_emit_end.
+        destruct (Nat.eq_dec a i) as [->|Hne].
+        + rewrite ex_self in He. cbn in He. apply Hhand. exact He.
+        + rewrite (ex_other w_active a Hne) in Hac. rewrite (ex_other w_eof a Hne) in He. apply Ihand; auto.
+    Qed.
+  End Exit.
+
+  (* ---------- a worker pushes chunks into its own bucket ---------- *)
+
+  Lemma nth_error_app_l {A} (l l' : list A) k : k < length l -> nth_error (l ++ l') k = nth_error l k.
+  Proof. intros. apply nth_error_app1. assumption. Qed.
+
+  Lemma firstn_app_l {A} (l l' : list A) k : k <= length l -> firstn k (l ++ l') = firstn k l.
+  Proof. intros. rewrite firstn_app. replace (k - length l) with 0 by lia. cbn. apply app_nil_r. Qed.
+
+  Section Push.
+    Variables (s : pstate) (i : nat) (cs : list chunk) (newpc : pc).
+    Hypothesis I : PInv s.
+    Hypothesis Hi : i < nw.
+    Hypothesis Hact : w_active (getw s i) = true.
+    Let w := getw s i.
+    Let w' := {| w_pos := w_pos w + covered cs; w_emit := w_emit w ++ cs; w_cons := w_cons w; w_sync := w_sync w;
+                 w_next := w_next w; w_active := true; w_eof := false; w_pc := newpc |}.
+    Let s' := setw s i w'.
+    Hypothesis Hchain : chain (emit_end s i) cs.
+    Hypothesis Hcanon : Forall canon cs.
+    Hypothesis Hnex : is_ex newpc = false.
+
+    Lemma pu_getw j : getw s' j = if i =? j then w' else getw s j.
+    Proof. unfold s'. apply getw_setw. rewrite (p_n _ _ _ _ _ _ s I). exact Hi. Qed.
+    Lemma pu_self : getw s' i = w'. Proof. rewrite pu_getw, Nat.eqb_refl. reflexivity. Qed.
+    Lemma pu_other j : j <> i -> getw s' j = getw s j.
+    Proof. intros Hne. rewrite pu_getw. destruct (Nat.eqb_spec i j); [congruence|reflexivity]. Qed.
+    Lemma pu_field {A} (f : wstate -> A) j : (f w' = f (getw s i)) -> f (getw s' j) = f (getw s j).
+    Proof. intros E. rewrite pu_getw. destruct (Nat.eqb_spec i j); [subst; exact E|reflexivity]. Qed.
+    Lemma pu_cons j : w_cons (getw s' j) = w_cons (getw s j). Proof. apply pu_field. reflexivity. Qed.
+    Lemma pu_sync j : w_sync (getw s' j) = w_sync (getw s j). Proof. apply pu_field. reflexivity. Qed.
+    Lemma pu_next j : w_next (getw s' j) = w_next (getw s j). Proof. apply pu_field. reflexivity. Qed.
+    Lemma pu_active j : w_active (getw s' j) = w_active (getw s j).
+    Proof. apply pu_field. cbn. symmetry. exact Hact. Qed.
+    Lemma pu_eof j : w_eof (getw s' j) = w_eof (getw s j).
+    Proof.
+      apply pu_field. cbn. symmetry. destruct (w_eof (getw s i)) eqn:E; [|reflexivity].
+      destruct (p_eof _ _ _ _ _ _ s I i Hi E) as [Hf _]. congruence.
+    Qed.
+    Lemma pu_emit_prefix j : exists ext, w_emit (getw s' j) = w_emit (getw s j) ++ ext /\ (j <> i -> ext = []).
+    Proof.
+      destruct (Nat.eq_dec j i) as [->|Hne].
+      - rewrite pu_self. exists cs. split; [reflexivity|congruence].
+      - rewrite (pu_other j Hne). exists []. split; [now rewrite app_nil_r|reflexivity].
+    Qed.
+    Lemma pu_frontier j : j < nw -> frontier s' j = frontier s j.
+    Proof.
+      intros Hj. unfold PChunkerInv.frontier. rewrite pu_cons.
+      destruct (pu_emit_prefix j) as (ext & E & _). rewrite E.
+      rewrite firstn_app_l by (apply (p_cons _ _ _ _ _ _ s I j Hj)). reflexivity.
+    Qed.
+    Lemma pu_nth j k : j < nw -> k < w_cons (getw s j) ->
+      nth_error (w_emit (getw s' j)) k = nth_error (w_emit (getw s j)) k.
+    Proof.
+      intros Hj Hk. destruct (pu_emit_prefix j) as (ext & E & _). rewrite E.
+      apply nth_error_app_l. pose proof (p_cons _ _ _ _ _ _ s I j Hj). lia.
+    Qed.
+    Lemma pu_emit_end_other j : j <> i -> emit_end s' j = emit_end s j.
+    Proof. intros Hne. unfold PChunkerInv.emit_end. now rewrite (pu_other j Hne). Qed.
+    Lemma pu_emit_end_self : emit_end s' i = emit_end s i + covered cs.
+    Proof. unfold PChunkerInv.emit_end. rewrite pu_self. cbn. rewrite covered_app. fold w. lia. Qed.
+    Lemma pu_onchain j : onchain s' j <-> onchain s j.
+    Proof. unfold onchain. split; intros Ho x Hx; specialize (Ho x Hx); now rewrite pu_next in *. Qed.
+
+    Hypothesis Hpcl : pcl s' i.
+    Hypothesis Hsl : sl s' i.
+
+    Lemma push_inv : PInv s'.
+    Proof.
+      pose proof (active_ge_kcur min max d data nw span s i I Hi Hact) as Hki.
+      pose proof I as I'.
+      destruct I as [In Ich Ica Ipo Ico Ine Iac Ieo Ipc Isy Ia Ib Ic Isl Ikb Iout Icol Idone Ihand].
+      constructor.
+      - unfold s'. rewrite nworkers_setw. exact In.
+      - intros j Hj. destruct (Nat.eq_dec j i) as [->|Hne].
+        + rewrite pu_self. cbn. apply chain_app. split; [apply Ich; exact Hi|exact Hchain].
+        + rewrite (pu_other j Hne). auto.
+      - intros j Hj. destruct (Nat.eq_dec j i) as [->|Hne].
+        + rewrite pu_self. cbn. apply Forall_app. split; [apply Ica; exact Hi|exact Hcanon].
+        + rewrite (pu_other j Hne). auto.
+      - intros j Hj. destruct (Nat.eq_dec j i) as [->|Hne].
+        + rewrite pu_emit_end_self. rewrite pu_self. cbn. unfold w. rewrite (Ipo i Hi). reflexivity.
+        + rewrite (pu_other j Hne), pu_emit_end_other by exact Hne. auto.
+      - intros j Hj. rewrite pu_cons. destruct (pu_emit_prefix j) as (ext & E & _). rewrite E, app_length.
+        specialize (Ico j Hj). lia.
+      - intros j Hj. rewrite pu_next. auto.
+      - intros j Hj. destruct (Nat.eq_dec j i) as [->|Hne].
+        + rewrite pu_self. cbn. now rewrite Hnex.
+        + rewrite (pu_other j Hne). auto.
+      - intros j Hj He. rewrite pu_eof in He. rewrite pu_active.
+        destruct (Ieo j Hj He) as [E1 E2]. split; [exact E1|].
+        destruct (Nat.eq_dec j i) as [->|Hne]; [congruence|]. now rewrite pu_emit_end_other.
+      - intros j Hj. destruct (Nat.eq_dec j i) as [->|Hne]; [exact Hpcl|].
+        specialize (Ipc j Hj). unfold PChunkerInv.pcl in *. rewrite (pu_other j Hne).
+        rewrite pu_emit_end_other by exact Hne. exact Ipc.
+      - intros j Hj Hk. unfold sync_ok. rewrite pu_sync, pu_cons. specialize (Isy j Hj Hk). unfold sync_ok in Isy.
+        rewrite Isy. destruct (w_cons (getw s j) =? 0) eqn:E0; [reflexivity|].
+        apply Nat.eqb_neq in E0. symmetry. apply pu_nth; [exact Hj|lia].
+      - intros a a' Hlt Ha' Hac. unfold act in Hac. rewrite pu_active in Hac. rewrite pu_next. apply Ia; auto.
+      - intros a j Haj Hjn Hj. rewrite pu_next in Hjn. rewrite pu_active, pu_cons.
+        destruct (Ib a j Haj Hjn Hj) as [B1 B2]. split; [exact B1|].
+        destruct (Nat.eq_dec j i) as [->|Hne]; [congruence|]. now rewrite (pu_other j Hne).
+      - intros a x Hax Hxn Hx. rewrite !pu_next in *. apply Ic; auto.
+      - intros a Ha. destruct (Nat.eq_dec a i) as [->|Hne]; [exact Hsl|].
+        specialize (Isl a Ha). unfold PChunkerInv.sl in *. rewrite (pu_other a Hne).
+        set (b := w_next (getw s a)) in *.
+        destruct (w_pc (getw s a)) as [|c prev|c n|c n| |]; auto.
+        + destruct prev as [p0|]; [|exact Logic.I]. destruct Isl as (S1 & S2 & S3).
+          rewrite pu_cons. split; [exact S1|]. split; [|exact S3].
+          destruct (Nat.lt_ge_cases b nw) as [Hb|Hb].
+          * rewrite pu_nth by (auto; lia). exact S2.
+          * rewrite (pu_other b) by lia. exact S2.
+        + destruct Isl as (m & S1 & S2 & S3). exists m. rewrite pu_sync. auto.
+      - intros j Hjk Hj. cbn in Hjk. rewrite pu_active, pu_cons.
+        destruct (Ikb j Hjk Hj) as [B1 B2]. split; [exact B1|].
+        destruct (Nat.eq_dec j i) as [->|Hne]; [congruence|]. now rewrite (pu_other j Hne).
+      - exact Iout.
+      - intros Hd. destruct (Icol Hd) as [Hk [HA|HB]]; (split; [exact Hk|]).
+        + left. unfold PChunkerInv.stateA in *. cbn [p_c s' setw] in *. rewrite pu_onchain, pu_frontier by exact Hk. exact HA.
+        + right. unfold PChunkerInv.stateB in *. cbn [p_c s' setw] in *.
+          destruct HB as (a & Ha & Ho & Hn & Hn' & Hf). exists a.
+          rewrite pu_onchain, pu_next, pu_frontier by exact Hn'. tauto.
+      - exact Idone.
+      - intros a Ha Hk Hac He Ho. rewrite pu_active in Hac. rewrite pu_eof in He. rewrite pu_onchain in Ho.
+        rewrite pu_next. destruct (Ihand a Ha Hk Hac He Ho) as [H1 H2]. split; [exact H1|].
+        rewrite pu_frontier by exact H1. destruct (Nat.eq_dec a i) as [->|Hne]; [congruence|].
+        now rewrite pu_emit_end_other.
+    Qed.
+  End Push.
 End Steps.
